@@ -270,6 +270,9 @@ func WindowFrameSet(partition Partition, expr parser.AnalyticClause) []WindowFra
 		case parser.FOLLOWING:
 			if !framePosition.Unbounded.IsEmpty() {
 				idx = length - 1
+			} else if length <= framePosition.Offset {
+				// beyond the end of the partition wherever the current row is (and the sum below cannot overflow)
+				idx = length
 			} else {
 				idx = current + framePosition.Offset
 			}
